@@ -338,6 +338,8 @@ def cmd_run(a):
           % (agg["n"], agg["steps"], len(agg["sigs"]), wall, ev["coverage"]["runs_per_hour"],
              sum(e[0] for e in known_hits.values()), n_viol, len(harness_errors)), flush=True)
     if n_viol:
+        for e in harness_errors[:10]:
+            print("HARNESS-NOTE (next to the violations above): " + e)
         return 1
     if harness_errors:
         for e in harness_errors[:10]:
